@@ -61,3 +61,71 @@ GROUND = [Bounded('frame_token_and_context_methods', frame_ground(
 CONTRACTS = []
 NOT_DECIDED = ['mutation inside ElementTree / lxml C code (no mutating method of the tree API is called: see the mutator table)',
                'determinism of callees (used by the repeatability argument)']
+
+
+# ---- bounded stand-in: observable purity and scoping on a set of expressions -------------------------
+
+def bounded_purity(tier, seed):
+    import copy
+    from xml.etree import ElementTree as ET
+    from elementpath import Selector, select, iter_select, XPath2Parser
+    from elementpath.datatypes import DateTime, Timezone
+    docs = ['<a><b x="1">t<c/>u</b><b x="2"/><!--k--></a>', '<r xmlns:p="urn:p"><p:e>1</p:e><e>2</e></r>']
+    exprs = ['//b', '/a/b[@x="2"]', 'count(//*)', '//b/@x', 'for $i in (1,2) return $i * $v', 'some $i in (1,2) satisfies $i = $v',
+             'let $x := 1 return ($x, $v)', '(function($v){$v + 1}(5), $v)', 'string-join(for $b in //b return string($b/@x), ",")',
+             '$d + xs:dayTimeDuration("PT1H")', '$d lt $d2', 'map:put($m, "k", 2)?k', 'array:append($arr, 9)?*', '$arr?*', '$m?k',
+             'every $i in (1, 2), $j in (3, 4) satisfies $i lt $j', '//e | //p:e', 'reverse(//b)/@x', '$v']
+    fails, n, seen = [], 0, set()
+    for di, doc in enumerate(docs):
+        for expr in exprs:
+            root = ET.XML(doc)
+            before = ET.tostring(root)
+            variables = {'v': 1, 'd': DateTime.fromstring('2000-01-01T12:00:00'), 'd2': DateTime.fromstring('2000-01-01T13:00:00Z'),
+                         'm': None, 'arr': None}
+            P = PARSERS['3.1']
+            ns = {'p': 'urn:p'}
+            try:
+                variables['m'] = select(root, 'map{"k": 1}', parser=P)
+                variables['arr'] = select(root, '[1, 2]', parser=P)
+                snapshot = {k: (str(v), getattr(v, 'tzinfo', None)) for k, v in variables.items()}
+                sel = Selector(expr, namespaces=ns, parser=P, variables=variables, timezone=Timezone.fromstring('+02:00'))
+                r1 = sel.select(root)
+                r2 = list(sel.iter_select(root))
+                other = ET.XML(docs[1 - di])
+                sel.select(other)
+                r3 = sel.select(root)
+                fresh = Selector(expr, namespaces=ns, parser=P, variables=variables, timezone=Timezone.fromstring('+02:00')).select(root)
+            except Exception as e:
+                continue
+            n += 1
+            seen.add((di, expr))
+
+            def norm(r):
+                return [ET.tostring(x) if hasattr(x, 'tag') else repr(x) for x in (r if isinstance(r, list) else [r])]
+            if norm(r1) != norm(r2):
+                fails.append({'key': f'select/iter_select {expr}', 'what': f'select != iter_select for `{expr}`: {norm(r1)} vs {norm(r2)}'})
+            if norm(r1) != norm(r3) or norm(r1) != norm(fresh):
+                fails.append({'key': f'repeat {expr}', 'what': f'`{expr}`: a re-used Selector gives {norm(r3)} after another document, '
+                                                               f'first {norm(r1)}, fresh {norm(fresh)}'})
+            if ET.tostring(root) != before:
+                fails.append({'key': f'tree {expr}', 'what': f'`{expr}` modified the input tree'})
+            after = {k: (str(v), getattr(v, 'tzinfo', None)) for k, v in variables.items()}
+            if after != snapshot:
+                fails.append({'key': f'variables {expr}', 'what': f'`{expr}` changed the variable values of the caller: {snapshot} -> {after}'})
+    scoping = [('let $x := 1 return (function($x){$x}(2), $x)', [2, 1]), ('(for $x in (1,2) return $x, 0)', [1, 2, 0]),
+               ('for $x in (1,2) return (for $x in (3) return $x, $x)', [3, 1, 3, 2]),
+               ('let $x := 1 return ((some $x in (5) satisfies $x = 5), $x)', [True, 1]),
+               ('let $x := 1 return (let $x := 2 return $x, $x)', [2, 1])]
+    for expr, want in scoping:
+        n += 1
+        seen.add(('scope', expr))
+        got = run_native(lambda: select(None, expr, parser=PARSERS['3.1'], item=1))
+        if got != ('return', want):
+            fails.append({'key': f'scope {expr}', 'what': f'`{expr}` = {got!r}, lexical scoping gives {want!r}'})
+    return {'evaluations': n, 'distinct': len(seen), 'failures': fails, 'n_failures': len(fails),
+            'scope': f'{len(exprs)} expressions x {len(docs)} documents: select == iter_select, re-used Selector across documents == '
+                     'fresh Selector, input tree bytes unchanged, caller variable values (incl. xs:dateTime tzinfo, maps, arrays) '
+                     'unchanged; 5 scoping programs', 'rule': 'distinct = (document, expression)'}
+
+
+BOUNDED = [Bounded('purity_and_scoping_programs', bounded_purity)]
